@@ -10,6 +10,17 @@ in frames where every previously seen animal is present, all scores above the th
 every tracker configuration of C09.  `evaluate` re-verifies these scene constraints on the
 explicit case (a case outside the class is *rejected*, never judged).
 
+Two motion classes are drawn.  "slow" is the class above.  "brisk" is the same scene with
+every length except the body size multiplied by BRISK (8): animals hop up to ~1.2 body
+lengths (<= 20 px per axis, <= 28 px Euclidean) between consecutive sightings - they stay
+put while hidden - and are >= 1600 px apart (homes 3360 px apart, fence 720 px).  Own-track
+scores are then tiny but still strictly better than every foreign score in exact arithmetic,
+which `scene_in_domain` re-verifies per sighting with reference formulas: the own boxes
+overlap by >= 4 px (IoU > 0 = foreign IoU), the COCO OKS of the last sighting is >= 1e-200
+in double precision (foreign OKS underflows to exactly 0), and the farthest of the animal's
+own last W sightings is > 4x closer than the nearest of any other animal's last W sightings
+(Euclidean ordering strict under mean and max reduction).
+
 Oracle: the map ground-truth animal -> set of track names over the whole history is a
 function (one name per animal) and injective (no name shared by two animals); every
 detection is returned with a track.
@@ -25,19 +36,37 @@ LEVEL = "exploration"
 RULE = (
     "a case is a tracker configuration plus an explicit scene (frames of detections with ground-truth "
     "animal ids) drawn by Hypothesis inside the separated-scene class of the property (re-verified by "
-    "evaluate); oracle: animal->track-name map is a function and injective; non-trivial = at least 2 "
+    "evaluate); the scene's motion class is drawn: slow (<= 3 px per axis per frame, >= 200 px apart) or brisk "
+    "(hops of 0.75..1.2 body lengths between sightings, >= 1600 px apart, own-track score still strictly best in "
+    "exact arithmetic for oks / iou / euclidean_dist - re-verified with reference formulas); "
+    "oracle: animal->track-name map is a function and injective; non-trivial = at least 2 "
     "animals and the scene contains an absence (shorter than the window) or a late arrival"
 )
 ASSUMPTIONS = [
     "Tracker._track_objects (class-level shared dict) is cleared by the harness before every scene",
     "poses are non-degenerate (>=3 nodes, bounding box >= 24x24 px): with a zero-area pose OKS is 0 for "
     "every non-identical pair and no assignment is distinguished - outside 'far apart compared with how far they move'",
+    "brisk scenes: animals do not move while hidden (a hop is the displacement between two consecutive sightings), so that "
+    "the own boxes overlap and the own-track OKS stays >= 1e-200 after an absence; hops are capped at 20 px per axis / 28 px "
+    "(OKS >= exp(-273)): beyond ~46 px the own-track OKS underflows in float64 itself and no assignment is distinguished",
     "window_size counts frames handed to the tracker after the first track exists (every such frame enters the fixed-window queue)",
 ]
 
 SIZE = 24.0
 STEP = 3.0
 MIN_SEP = 200.0
+# "brisk" motion class: separation / home spacing / fence of the slow class times BRISK; hop between
+# consecutive sightings <= BRISK_AXIS per axis (boxes still overlap by SIZE - BRISK_AXIS = 4 px) and within
+# [BRISK_MIN, BRISK_MAX] px Euclidean (0.75 .. ~1.17 body lengths) for the "steady"/"hop" animals
+BRISK = 8.0
+BRISK_AXIS = 20.0
+BRISK_MIN = 18.0
+BRISK_MAX = 28.0
+OKS_FLOOR = 1e-200  # own-track OKS must be representable with a wide margin in float64 (smallest normal 2.2e-308)
+HOPS = sorted(
+    ([float(dx), float(dy)] for dx in range(-20, 21) for dy in range(-20, 21) if BRISK_MIN**2 <= dx * dx + dy * dy <= BRISK_MAX**2),
+    key=lambda v: (abs(v[0]) + abs(v[1]), v),
+)
 
 
 def strategy(max_frames):
@@ -84,30 +113,46 @@ def strategy(max_frames):
                 for t in ts:
                     pres[t][a] = False
         frames = []
-        pos = [[300.0 + 420.0 * (a % 3) + 0.25, 300.0 + 420.0 * (a // 3) + 0.5] for a in range(K)]
+        # motion class of the scene (drawn class, one choice): slow = the original walks; brisk = hops of about one
+        # body length between sightings with every separation length scaled by BRISK
+        motion = draw(st.sampled_from(["slow", "brisk", "slow", "brisk", "slow"]))
+        m = BRISK if motion == "brisk" else 1.0
+        fence = 90.0 * m
+        pos = [[300.0 + 420.0 * m * (a % 3) + 0.25, 300.0 + 420.0 * m * (a // 3) + 0.5] for a in range(K)]
         home = [list(p) for p in pos]
-        drift = [
-            [draw(st.sampled_from([-1, 1])), draw(st.sampled_from([-1, 0, 1]))] if draw(st.booleans()) else None
-            for _ in range(K)
-        ]
+        if motion == "slow":
+            mode = ["drift" if draw(st.booleans()) else "walk" for _ in range(K)]
+            vel = [
+                [draw(st.sampled_from([-1, 1])) * STEP, draw(st.sampled_from([-1, 0, 1])) * STEP] if mode[a] == "drift" else None
+                for a in range(K)
+            ]
+        else:
+            # steady: constant brisk velocity (reflected at the fence); hop: a fresh brisk hop per sighting;
+            # stroll: a slow walker sharing the scene with brisk ones (own-track scores of very different magnitude)
+            mode = [draw(st.sampled_from(["steady", "steady", "hop", "stroll"])) for _ in range(K)]
+            vel = [list(draw(st.sampled_from(HOPS))) if mode[a] == "steady" else None for a in range(K)]
         for t in range(F):
             dets = []
             for a in range(K):
-                if drift[a] is not None:  # steady maximal-speed drift (direction flips at the fence)
-                    dx, dy = drift[a][0] * STEP, drift[a][1] * STEP
+                if vel[a] is not None:  # steady drift (direction flips at the fence)
+                    dx, dy = vel[a]
+                elif mode[a] == "hop":
+                    dx, dy = draw(st.sampled_from(HOPS))
                 else:
                     dx = draw(st.integers(-3, 3)) * (STEP / 3.0)
                     dy = draw(st.integers(-3, 3)) * (STEP / 3.0)
+                if motion == "brisk" and not pres[t][a]:
+                    continue  # brisk animals stay put while hidden: a hop is the displacement between two sightings
                 nx, ny = pos[a][0] + dx, pos[a][1] + dy
-                # bounded walk: stay within 90 px of home (keeps >= 200 px separation)
-                if abs(nx - home[a][0]) > 90:
+                # bounded walk: stay within the fence around home (keeps the separation of the class)
+                if abs(nx - home[a][0]) > fence:
                     nx = pos[a][0] - dx
-                    if drift[a] is not None:
-                        drift[a][0] = -drift[a][0]
-                if abs(ny - home[a][1]) > 90:
+                    if vel[a] is not None:
+                        vel[a][0] = -vel[a][0]
+                if abs(ny - home[a][1]) > fence:
                     ny = pos[a][1] - dy
-                    if drift[a] is not None:
-                        drift[a][1] = -drift[a][1]
+                    if vel[a] is not None:
+                        vel[a][1] = -vel[a][1]
                 pos[a] = [nx, ny]
             order = draw(st.permutations(list(range(K))))
             for a in order:
@@ -115,7 +160,7 @@ def strategy(max_frames):
                     pts = [[pos[a][0] + o[0], pos[a][1] + o[1]] for o in offs]
                     dets.append({"a": a, "pts": pts, "score": draw(st.sampled_from([0.95, 0.8, thr + 0.2]))})
             frames.append(dets)
-        return {"cfg": cfg, "kind": kind, "n_nodes": n_nodes, "K": K, "frames": frames}
+        return {"cfg": cfg, "kind": kind, "motion": motion, "n_nodes": n_nodes, "K": K, "frames": frames}
 
     return scene()
 
@@ -126,9 +171,16 @@ def scene_in_domain(case):
     W = cfg["window_size"]
     thr = cfg["instance_score_threshold"]
     frames = case["frames"]
+    motion = case.get("motion", "slow")
+    if motion not in ("slow", "brisk"):
+        return False, "unknown motion class", {"absence": False, "late": False, "hop": False}
+    brisk = motion == "brisk"
+    min_sep = MIN_SEP * (BRISK if brisk else 1.0)
     last_seen, last_pos = {}, {}
+    hist = {}  # animal -> node-0 positions of all its sightings so far (brisk class only)
+    shape = None
     seen = set()
-    facts = {"absence": False, "late": False}
+    facts = {"absence": False, "late": False, "hop": False}
     first_track_frame = None
     for t, dets in enumerate(frames):
         ids = [d["a"] for d in dets]
@@ -143,12 +195,21 @@ def scene_in_domain(case):
             ys = [p[1] for p in d["pts"]]
             if max(xs) - min(xs) < SIZE - 1e-9 or max(ys) - min(ys) < SIZE - 1e-9 or len(d["pts"]) < 3:
                 return False, "degenerate pose", facts
+            if brisk:
+                # one rigid pose shared by all animals: every feature (keypoints, centroid, box) of a detection is
+                # node 0 plus a constant, so displacements of node 0 are displacements of every feature.
+                # coordinates are sums of a few dyadic rationals < 2^14: exact in float64, 1e-6 is pure slack
+                rel = [[p[0] - d["pts"][0][0], p[1] - d["pts"][0][1]] for p in d["pts"]]
+                if shape is None:
+                    shape = rel
+                if len(rel) != len(shape) or any(abs(r[0] - s[0]) > 1e-6 or abs(r[1] - s[1]) > 1e-6 for r, s in zip(rel, shape)):
+                    return False, "brisk: pose not rigid", facts
         # separation
         for i in range(len(dets)):
             for j in range(i + 1, len(dets)):
                 for p in dets[i]["pts"]:
                     for q in dets[j]["pts"]:
-                        if math.hypot(p[0] - q[0], p[1] - q[1]) < MIN_SEP:
+                        if math.hypot(p[0] - q[0], p[1] - q[1]) < min_sep:
                             return False, "animals too close", facts
         new = set(ids) - seen
         if new and t > 0 and seen:
@@ -164,18 +225,43 @@ def scene_in_domain(case):
                     facts["absence"] = True
                 if gap - 1 >= W:
                     return False, "absence not shorter than the window", facts
-                # per-frame displacement bound (rigid pose -> node 0 is representative)
-                if abs(p0[0] - last_pos[a][0]) > STEP * gap + 1e-9 or abs(p0[1] - last_pos[a][1]) > STEP * gap + 1e-9:
-                    return False, "moves too fast", facts
-                # rigid pose
+                ddx, ddy = abs(p0[0] - last_pos[a][0]), abs(p0[1] - last_pos[a][1])
+                if not brisk:
+                    # per-frame displacement bound (rigid pose -> node 0 is representative)
+                    if ddx > STEP * gap + 1e-9 or ddy > STEP * gap + 1e-9:
+                        return False, "moves too fast", facts
+                else:
+                    # hop since the last sighting (whatever the gap). iou: own boxes still overlap by >= 4 px
+                    if ddx > BRISK_AXIS + 1e-9 or ddy > BRISK_AXIS + 1e-9:
+                        return False, "brisk: own boxes do not overlap enough", facts
+                    # oks (COCO definition: exp(-d^2 / (2 * area * (2 * stddev)^2)), stddev 0.025, area = bounding box;
+                    # rigid pose -> every node has the same d): the last sighting alone keeps the own-track score
+                    # far above the float64 underflow, also after a mean over <= W entries
+                    xs = [p[0] for p in d["pts"]]
+                    ys = [p[1] for p in d["pts"]]
+                    area = (max(xs) - min(xs)) * (max(ys) - min(ys))
+                    if math.exp(-(ddx * ddx + ddy * ddy) / (2.0 * area * 0.05**2)) < OKS_FLOOR:
+                        return False, "brisk: own-track OKS too close to underflow", facts
+                    if math.hypot(ddx, ddy) >= BRISK_MIN - 1e-9:
+                        facts["hop"] = True
+                    # euclidean_dist (and exactly-zero foreign OKS / IoU): the farthest of the own last W sightings
+                    # (superset of what either candidate method keeps in a window of W) is > 4x closer than the
+                    # nearest of any other animal's last W sightings -> strict ordering under mean and max
+                    own_far = max(math.hypot(p0[0] - q[0], p0[1] - q[1]) for q in hist[a][-W:])
+                    for b, hb in hist.items():
+                        if b != a and min(math.hypot(p0[0] - q[0], p0[1] - q[1]) for q in hb[-W:]) <= 4.0 * own_far + 4.0 * SIZE:
+                            return False, "brisk: foreign history too close", facts
             last_seen[a] = t
             last_pos[a] = p0
+        if brisk:
+            for d in dets:  # after the whole frame was judged against the histories before it
+                hist.setdefault(d["a"], []).append(d["pts"][0])
         # separation must also hold against positions of temporarily absent animals' last poses
         for a, lp in last_pos.items():
             if a in ids:
                 continue
             for d in dets:
-                if math.hypot(d["pts"][0][0] - lp[0], d["pts"][0][1] - lp[1]) < MIN_SEP:
+                if math.hypot(d["pts"][0][0] - lp[0], d["pts"][0][1] - lp[1]) < min_sep:
                     return False, "animal close to an absent animal's last position", facts
         seen |= set(ids)
     return True, "", facts
@@ -191,7 +277,12 @@ def evaluate(case):
         return res
     K = len({d["a"] for f in case["frames"] for d in f})
     res.nontrivial = K >= 2 and (facts["absence"] or facts["late"])
+    motion = case.get("motion", "slow")
+    score_name = trackgen.FEATURE_SCORE[cfg["feat"]][1]
     res.cls(trackgen.cfg_label(cfg), f"K={K}", *(k for k, v in facts.items() if v))
+    res.cls(f"motion={motion}", f"motion={motion}|{score_name}", f"motion={motion}|{'nontrivial' if res.nontrivial else 'trivial'}")
+    # bucket suffix: failures of the brisk class are told apart from those of the original (slow) class
+    sfx = ":brisk" if motion == "brisk" else ""
     tracker = trackgen.make_tracker(cfg)
     cm = cfg["candidates_method"]
     names = {}  # animal -> set of names
@@ -202,7 +293,7 @@ def evaluate(case):
         try:
             out = tracker.track(list(insts), frame_idx=t, image=None)
         except Exception as e:  # noqa: BLE001
-            b = runner.exc_bucket(f"track:{cm}", e)
+            b = runner.exc_bucket(f"track:{cm}{sfx}", e)
             if b is None:
                 raise
             res.fail(b, f"frame {t}: {type(e).__name__}: {str(e)[:200]}")
@@ -211,19 +302,19 @@ def evaluate(case):
         out_ids = {id(o) for o in out}
         for d, inst in zip(dets, insts):
             if id(inst) not in out_ids or inst.track is None:
-                res.fail(f"untracked:{cm}", f"frame {t}: animal {d['a']} not returned with a track")
+                res.fail(f"untracked:{cm}{sfx}", f"frame {t}: animal {d['a']} not returned with a track")
                 continue
             nm = inst.track.name
             names.setdefault(d["a"], set()).add(nm)
             owner.setdefault(nm, set()).add(d["a"])
             if len(names[d["a"]]) > 1:
                 res.fail(
-                    f"identity-changed:{cm}",
+                    f"identity-changed:{cm}{sfx}",
                     f"frame {t}: animal {d['a']} has held tracks {sorted(names[d['a']])} ({trackgen.cfg_label(cfg)}, window {cfg['window_size']})",
                 )
             if len(owner[nm]) > 1:
                 res.fail(
-                    f"identity-shared:{cm}",
+                    f"identity-shared:{cm}{sfx}",
                     f"frame {t}: track {nm} was given to animals {sorted(owner[nm])} ({trackgen.cfg_label(cfg)}, window {cfg['window_size']})",
                 )
     res.n_evals = max(1, res.n_evals)
@@ -234,6 +325,7 @@ def summarize(case):
     return {
         "cfg": case["cfg"],
         "kind": case["kind"],
+        "motion": case.get("motion", "slow"),
         "n_nodes": case["n_nodes"],
         "frames(animal ids in listed order)": [[d["a"] for d in f] for f in case["frames"]],
         "first_detection": case["frames"][0][0] if case["frames"] and case["frames"][0] else None,
